@@ -392,6 +392,10 @@ def run_part(ctx):
             if ctx.quick and (ia * 5 + ib * 3 + ctx.seed) % 5 != 0:
                 continue
             tasks.append((ia, ib, "sample" if ctx.quick else "all"))
+    if ctx.quick:
+        # two workers issuing the SAME call (create the same study name, claim the same trial, ...): check-then-act races
+        # live exactly there, and a statement-level schedule of one call is short: every boundary, also in the quick tier
+        tasks += [(ia, ia, "all") for ia in range(n_al) if not c03.alphabet(1, "rdb_conns")[ia][0]["a"].startswith("get_")]
     traces = []
     with cf.ProcessPoolExecutor(max_workers=16) as ex:
         for res in ex.map(_pair_task, tasks, chunksize=2):
